@@ -96,9 +96,10 @@ let () =
              print_endline ("R" ^ String.concat "," (List.map val_s vals))
            else begin
              let txt = rt_print pits in
-             let content = pre @ txt in
              let start = List.length pre in
-             let wpos = start + List.length txt in
+             let (content, wp) = if k = "S" then rt_print_to_string pre (nat_of_int start) pits
+                                 else rt_print_to_file pre (nat_of_int start) pits in
+             let wpos = int_of_nat wp in
              let res = if k = "S" then rt_scan_str (content @ rest) (nat_of_int start) sits []
                        else rt_scan_file (txt @ rest) (nat_of_int start) sits [] in
              let r = match res with
